@@ -36,7 +36,7 @@ class X86:
     KINDS = {
         "nop": "plain", "push": "plain", "pop": "plain", "movi": "plain",
         "xor": "plain", "nop5": "plain", "lea": "plain", "ldq": "plain",
-        "inc": "plain", "jmp": "jmp", "jmp8": "jmp", "jcc": "jcc", "jcc8": "jcc",
+        "inc": "plain", "cmpmi": "plain", "jmp": "jmp", "jmp8": "jmp", "jcc": "jcc", "jcc8": "jcc",
         "call": "call", "ret": "ret", "ijmp": "ijmp", "icall": "icall",
     }
 
@@ -73,6 +73,10 @@ class X86:
             if self.bits == 64:
                 return b"\x48\x8b\x05" + _fill(iid, 4), [(3, 4, "pcrel")]
             return b"\x8b\x05" + _fill(iid, 4), [(2, 4, "abs")]
+        if v == "cmpmi":
+            # cmpl $imm8, t(%rip) / cmpl $imm8, t : a symbolic operand that is
+            # NOT the last field of the instruction
+            return b"\x83\x3d" + _fill(iid, 4) + bytes([item.get("imm", 1) & 0x7F]), [(2, 4, "pcrel" if self.bits == 64 else "abs")]
         if v == "jmp":
             return b"\xe9" + _fill(iid, 4), [(1, 4, "pcrel")]
         if v == "jmp8":
@@ -116,6 +120,8 @@ class X86:
             return f"leaq {t}(%rip), %rax" if self.bits == 64 else f"leal {t}, %eax"
         if v == "ldq":
             return f"movq {t}(%rip), %rax" if self.bits == 64 else f"movl {t}, %eax"
+        if v == "cmpmi":
+            return f"cmpl ${item.get('imm', 1) & 0x7F}, {t}(%rip)" if self.bits == 64 else f"cmpl ${item.get('imm', 1) & 0x7F}, {t}"
         if v in ("jmp", "jmp8"):
             return f"jmp {t}"
         if v in ("jcc", "jcc8"):
@@ -176,7 +182,9 @@ class ARM64:
             return struct.pack("<I", x)
 
         if v == "nop":
-            return self.nop, []
+            # (the program's own 'do nothing' instruction is mov x1, x1: a
+            # real nop could not be told apart from 4-byte nop padding)
+            return w(0xAA0103E1), []
         if v == "movi":
             # movz w0, #imm16
             return w(0x52800000 | ((item["imm"] & 0xFFFF) << 5)), []
@@ -202,7 +210,7 @@ class ARM64:
         v = item["v"]
         t = item.get("t")
         if v == "nop":
-            return "nop"
+            return "mov x1, x1"
         if v == "movi":
             return f"mov w0, #{item['imm'] & 0xFFFF:#x}"
         if v == "adrp":
